@@ -387,6 +387,8 @@ class Exporter {
                     json::Object v = typeInfo(V->getType());
                     v["name"] = V->getNameAsString();
                     v["id"] = idOf(V);
+                    v["static"] = V->isStaticLocal();
+                    v["constType"] = V->getType().isConstQualified();
                     v["init"] = exprOrNull(V->getInit());
                     vs.push_back(std::move(v));
                 }
